@@ -603,6 +603,26 @@ impl<'a> Rn<'a> {
             self.r(f, *r);
         }
     }
+    /// Declarations of one type: one per line, or -- for every other group -- as one comma list
+    /// (`a, b, c : DINT;`), where each name is still its own declaration occurrence.
+    fn decl_group(&mut self, f: usize, ids: &[usize], ty: &str) {
+        if ids.len() >= 2 && (ids[0] + ids.len()) % 2 == 0 {
+            self.put(f, "  ");
+            for (k, d) in ids.iter().enumerate() {
+                if k > 0 {
+                    self.put(f, ", ");
+                }
+                self.d(f, *d);
+            }
+            self.put(f, &format!(" : {ty};\n"));
+        } else {
+            for d in ids {
+                self.put(f, "  ");
+                self.d(f, *d);
+                self.put(f, &format!(" : {ty};\n"));
+            }
+        }
+    }
     fn var_blocks(&mut self, f: usize, s: usize, fixed: &str) {
         let sk = self.sk;
         let exts: Vec<usize> = sk.stmts.iter().filter(|st| st.scope == s && st.form == "ext").map(|st| st.refs[0]).collect();
@@ -622,20 +642,13 @@ impl<'a> Rn<'a> {
             if is_fb {
                 self.put(f, "  zin : DINT;\n"); // (the run-time refuses a call without any argument)
             }
-            for p in params {
-                self.put(f, "  ");
-                self.d(f, p);
-                self.put(f, " : DINT;\n");
-            }
+            self.decl_group(f, &params, "DINT");
             self.put(f, "END_VAR\n");
         }
         if sk.sc(s).kind == "fb" {
             self.put(f, "VAR_OUTPUT\n  zo : DINT;\n");
-            for o in sk.decls_in(s, "outvar") {
-                self.put(f, "  ");
-                self.d(f, o);
-                self.put(f, " : DINT;\n");
-            }
+            let outs = sk.decls_in(s, "outvar");
+            self.decl_group(f, &outs, "DINT");
             self.put(f, "END_VAR\n");
         }
         self.put(f, "VAR\n");
@@ -774,11 +787,8 @@ impl<'a> Rn<'a> {
                 self.put(f, "TYPE ");
                 self.d(f, d);
                 self.put(f, " :\nSTRUCT\n");
-                for fl in sk.decls_in(s, "field") {
-                    self.put(f, "  ");
-                    self.d(f, fl);
-                    self.put(f, " : DINT;\n");
-                }
+                let fields = sk.decls_in(s, "field");
+                self.decl_group(f, &fields, "DINT");
                 self.put(f, "END_STRUCT\nEND_TYPE\n\n");
             }
             "namespace" => {
